@@ -90,13 +90,35 @@ end
 rule "reader" salience -9 begin
   probe3(Shared.V)
 end
+rule "keeper" salience -10 begin
+  kept = Shared.Tags
+  Shared.Tags = Shared.Tags2
+  probe6(kept[0], Shared.Tags[0])
+end
+rule "looper" salience -11 begin
+  forRange Cur := Shared.Tags2 {
+    lpn = 1
+  }
+end
 `
 	var probed2 int64
 	probe2 := func(v int64) { atomic.AddInt64(&probed2, 1) }
 	// injected names, in contrast, are shared by all rules of a call: what the highest-priority
 	// rule stores into Shared.V is what the lowest-priority rule reads (sort model)
-	type sharedT struct{ V int64 }
+	type sharedT struct {
+		V           int64
+		Tags, Tags2 []int64
+	}
 	shared := &sharedT{}
+	// a local keeps the VALUE it was given (here: a slice) when the injected field it came from is replaced,
+	// and a loop variable that names injected data is that injected data (shared by all rules, seen by the host)
+	var seen6 [][2]int64
+	probe6 := func(a, b int64) {
+		mu.Lock()
+		seen6 = append(seen6, [2]int64{a, b})
+		mu.Unlock()
+	}
+	cur := new(int64)
 	var seen3 []int64
 	probe3 := func(v int64) {
 		mu.Lock()
@@ -115,7 +137,7 @@ end
 			seen5.Store(fmt.Sprintf("got %d, the rule's own function gives %d", got, want))
 		}
 	}
-	apis := map[string]interface{}{"probe4": probe4, "probe5": probe5,
+	apis := map[string]interface{}{"probe6": probe6, "Cur": cur, "probe4": probe4, "probe5": probe5,
 		"pickdouble": func() func(int64) int64 { return func(x int64) int64 { return 2 * x } },
 		"picktriple": func() func(int64) int64 { return func(x int64) int64 { return 3 * x } },
 		"once": once, "probe": probe, "hold": hold, "probe2": probe2, "probe3": probe3, "Shared": shared,
@@ -198,7 +220,25 @@ end
 		seen3 = nil
 		mu.Unlock()
 		shared.V = 40
+		shared.Tags, shared.Tags2 = []int64{11, 12}, []int64{21, 22, 23}
+		*cur = -5
+		mu.Lock()
+		seen6 = nil
+		mu.Unlock()
 		eng.Execute(rb, true)
+		mu.Lock()
+		s6 := append([][2]int64{}, seen6...)
+		seen6 = nil
+		mu.Unlock()
+		if len(s6) != 1 || s6[0] != [2]int64{11, 21} {
+			k.Violate("local-follows-injected-data", fmt.Sprintf("`kept = Shared.Tags  Shared.Tags = Shared.Tags2  probe6(kept[0], Shared.Tags[0])` observed %v, expected [[11 21]]: the local is the value it was given", s6),
+				map[string]interface{}{"rule_text": text})
+		}
+		if *cur != 2 {
+			k.Violate("injected-loop-variable-not-shared", fmt.Sprintf("`forRange Cur := Shared.Tags2 {...}` with Cur injected as a pointer: the host sees Cur = %d afterwards, expected the last index 2", *cur),
+				map[string]interface{}{"rule_text": text})
+		}
+		shared.Tags, shared.Tags2 = []int64{11, 12}, []int64{21, 22, 23}
 		eng.ExecuteSelectedRulesWithControlAsGivenSortedName(rb, true, []string{"writer", "reader"})
 		mu.Lock()
 		got := append([]int64{}, seen3...)
